@@ -44,7 +44,7 @@ def mk_case(content=b"", chunks=(), netascii=False, options=(), max_bs=65464, ma
 def kind_sx(c):
     k = c["kind"]
     n = len(c["content"])
-    if k[0] in ("noreg", "bufshort"):
+    if k[0] in ("noreg", "bufshort", "sized"):
         return [2]
     # optional third element: the position is that many bytes BEYOND the end (legal for BytesIO and files;
     # the content of such a case is empty: nothing can be read there)
@@ -82,6 +82,22 @@ class _LoggedFile:
     def __exit__(self, *a):
         self._log.append(("close_file",))
         return self._f.__exit__(*a)
+
+
+class SizedStream(fake_net.ChunkedStream):
+    """knows its length (len(f), like mmap.mmap); handed to the code unwrapped so that len() is visible"""
+    _log = None
+
+    def __len__(self):
+        return len(self.content)
+
+    def __bool__(self):
+        return True
+
+    def __exit__(self, *a):
+        if self._log is not None:
+            self._log.append(("close_file",))
+        return super().__exit__(*a)
 
 
 class BufferedChunkedStream(io.BufferedIOBase):
@@ -124,6 +140,11 @@ def open_stream(c, log, tmpfiles):
     k = c["kind"]
     if k[0] == "noreg":
         f = fake_net.ChunkedStream(c["content"], c["chunks"])
+    elif k[0] == "sized":
+        # a stream that knows its length (len(f), like mmap.mmap) but has no usable file descriptor: for the
+        # unchanged code this is a stream of unknown size
+        f = SizedStream(c["content"], c["chunks"])
+        f._log = log
     elif k[0] == "bufshort":
         f = BufferedChunkedStream(c["content"], c["chunks"])
         f._log = log
@@ -172,7 +193,7 @@ def run_impl(c, handler=None):
 
     def default_handler(filename, client, server, context):
         f = open_stream(c, loghook, tmpfiles)
-        return f if isinstance(f, (_LoggedBytesIO, BufferedChunkedStream)) else _LoggedFile(f, loghook)
+        return f if isinstance(f, (_LoggedBytesIO, BufferedChunkedStream, SizedStream)) else _LoggedFile(f, loghook)
     script = [(t, ADDRS[a], d) for (t, a, d) in c["events"]]
     try:
         log = fake_net.run_transfer(script, handler or default_handler, dict(c["options"]),
